@@ -57,7 +57,7 @@ class Tricky(Enum):
     B = "A"
 
 
-class Plain(Enum):
+class MixEnum(Enum):
     X = 1
     Y = "y"
 
